@@ -23,6 +23,11 @@ included).  The theorems about the code before the repair are in `ForML.Lemmas.C
                          name and the resolved ordered field list agree; the table survives pickling of its classes
                          (schemas from hierarchies: ForML.Lemmas.C08Schema — C08_schema_pickle, C08_schema_eq_iff,
                          C08_schema_extend, C08_schema_names_*, C08_kind_singleton*, C08_reflect_*)
+  C08_anon_shipped_iff / C08_anon_fresh_iff   anonymous references after shipping: equal ⇔ equal names; "distinct creations
+                         stay distinct wherever copies meet" (C08_anon_full) ⇔ the naming scheme is injective over
+                         (process, serial) — fresh ACROSS processes
+  C08_anon_counter_counterexample / _collapse   a per-process counter refutes it with two processes (equal, hash-equal, one
+                         dict key, self-join with one origin)
   C08_dict_feature / C08_dict_source   a hash-table lookup that does not raise returns exactly what a structural
                          dictionary returns, in every hash environment and probe order (no confusion by collisions)
 -/
@@ -393,6 +398,64 @@ theorem C08_hier_table {α : Type} [DecidableEq α] (env : HashEnv α) (cf : Lit
   have hw := tableOf_windowFree ds _ i t ht
   have _ := ht'
   exact ⟨(C08_partial env cf).2.1 t t' hw, by rw [C08_schema_table_pickle]; exact ht, (C08_partial env cf).2.2.2.2.1 t hw⟩
+
+/-! ### anonymous references across processes -/
+
+/-- two anonymous references to one (window-free) source, made anywhere, compare equal after shipping exactly when
+their names are equal — and then they hash equal too, in every hash environment -/
+theorem C08_anon_shipped_iff {P : Type} {α : Type} [DecidableEq α] (env : HashEnv α) (cf : Lit → Lit → Bool)
+    (name : AnonNamer P) (s : Source) (hs : s.windowFree = true) (p q : P) (i j : Nat) :
+    ((Source.identEq cf (anonRef name s p i) (anonRef name s q j) = some true
+      ∧ Source.hashAgree env (anonRef name s p i) (anonRef name s q j) = true) ↔ name p i = name q j) := by
+  have hw : (anonRef name s p i).windowFree = true := by simp [anonRef, Source.windowFree, hs]
+  rw [(C08_partial env cf).2.1 _ _ hw]
+  simp [anonRef]
+
+/-- "distinct anonymous references stay distinct wherever their copies meet" for a naming scheme -/
+def C08_anon_full {P : Type} (name : AnonNamer P) : Prop :=
+  ∀ (cf : Lit → Lit → Bool) (s : Source), s.windowFree = true → ∀ (p q : P) (i j : Nat), (p, i) ≠ (q, j) →
+    Source.identEq cf (anonRef name s p i) (anonRef name s q j) ≠ some true
+
+/-- **identity after shipping requires names that are fresh ACROSS processes**: the statement holds exactly for the naming
+schemes that never give one name to two creations — of one process or of two -/
+theorem C08_anon_fresh_iff {P : Type} (name : AnonNamer P) :
+    C08_anon_full name ↔ ∀ (p q : P) (i j : Nat), name p i = name q j → (p, i) = (q, j) := by
+  constructor
+  · intro h p q i j hn
+    by_cases hpq : (p, i) = (q, j)
+    · exact hpq
+    · exfalso
+      have hs : (Source.table "T" []).windowFree = true := rfl
+      refine h (fun _ _ => false) (.table "T" []) hs p q i j hpq ?_
+      exact ((C08_anon_shipped_iff freeEnv (fun _ _ => false) name _ hs p q i j).2 hn).1
+  · intro h cf s hs p q i j hne heq
+    have hw : (anonRef name s p i).windowFree = true := by simp [anonRef, Source.windowFree, hs]
+    have := (C08_source_iff cf _ _ hw).1 heq
+    simp only [anonRef, Source.ref.injEq, true_and] at this
+    exact hne (h p q i j this)
+
+/-- a per-process counter is NOT such a scheme as soon as there are two processes: their first anonymous references
+to any source are one object after shipping — equal, hash-equal, one dictionary key, and a self-join between them has
+one origin on both sides -/
+theorem C08_anon_counter_counterexample {P : Type} (p q : P) (hpq : p ≠ q) : ¬ C08_anon_full (counterNamer (P := P)) := by
+  intro h
+  have := (C08_anon_fresh_iff counterNamer).1 h p q 0 0 rfl
+  exact hpq (Prod.ext_iff.1 this).1
+
+theorem C08_anon_counter_collapse {P : Type} {α : Type} [DecidableEq α] (env : HashEnv α) (cf : Lit → Lit → Bool)
+    (s : Source) (hs : s.windowFree = true) (p q : P) (i : Nat) :
+    Source.identEq cf (anonRef counterNamer s p i) (anonRef counterNamer s q i) = some true
+    ∧ Source.hashAgree env (anonRef counterNamer s p i) (anonRef counterNamer s q i) = true
+    ∧ dictGet (fun x => x.H env) (Source.identEq cf) [(anonRef counterNamer s p i, 0)] (anonRef counterNamer s q i) = .ok (some 0)
+    ∧ (∀ k c, Source.join (anonRef counterNamer s p i) (anonRef counterNamer s q i) k c
+        = Source.join (anonRef counterNamer s p i) (anonRef counterNamer s p i) k c) := by
+  have h := (C08_anon_shipped_iff env cf (counterNamer (P := P)) s hs p q i i).2 rfl
+  refine ⟨h.1, h.2, ?_, fun _ _ => rfl⟩
+  have hH : (anonRef (counterNamer (P := P)) s p i).H env = (anonRef (counterNamer (P := P)) s q i).H env := rfl
+  simp [dictGet, hH, h.1]
+
+/-- … while inside one process it does tell its references apart (why nothing shows in one interpreter) -/
+example : (counterNamer () 0, counterNamer () 1, counterNamer () 9) = ("ref1", "ref2", "ref10") := by decide
 
 /-! ### lookups are never confused -/
 
